@@ -29,7 +29,7 @@ def thorough_passes():
              lambda n: len(n) == 4)]
 
 
-def option_variants(ids, opt_dev):
+def option_variants(ids, opt_dev, partial_pairs=True):
     """Deviation-bounded option menu: default + <= opt_dev options off their default."""
     dims = {
         "fraction": [1.0, 0.5, 0.0],
@@ -53,10 +53,10 @@ def option_variants(ids, opt_dev):
                       {"fraction": 0.5, "loopless": True},
                       # ... and a partial request meets every other option (the problem is built for the whole model, the
                       # loop runs over the requested reactions only)
-                      {"pfba_factor": 1.0, "reaction_list": "first_id"},
-                      {"pfba_factor": 1.5, "reaction_list": dims["reaction_list"][-1]},
-                      {"loopless": True, "reaction_list": dims["reaction_list"][-1]},
-                      {"fraction": 0.5, "reaction_list": "first_id"}):
+                      ) + (({"pfba_factor": 1.0, "reaction_list": "first_id"},
+                            {"pfba_factor": 1.5, "reaction_list": dims["reaction_list"][-1]}) if partial_pairs else ()
+                           ) + (({"loopless": True, "reaction_list": dims["reaction_list"][-1]},
+                                 {"fraction": 0.5, "reaction_list": "first_id"}) if partial_pairs is True else ()):
             o = dict(base)
             o.update(extra)
             yield o
@@ -128,7 +128,7 @@ def check_model(net, bounds, P, stats, origin=None):
                 stats["origin_unavailable"] = stats.get("origin_unavailable", 0) + 1
                 continue
         cache = {}
-        for opts in option_variants(ids, P["opt_dev"]):
+        for opts in option_variants(ids, P["opt_dev"], P.get("partial_pairs", True)):
             f = opts["fraction"]
             if f != 1.0 and ((direction == "max" and z < 0) or (direction == "min" and z > 0)):
                 continue  # outside the property's precondition
@@ -407,7 +407,8 @@ def explore(ctx):
     P = params(ctx.tier)
     n_self = exactlp.selftest(limit=3000)
     # quick also covers the smallest networks with alternative routes (two boundary + two internal reactions)
-    routes = (dict(nm=3, nr=4, K=(-1, 0, 1), d=1, menu=[(0, 10), (-10, 10), (-10, 0), (-10, -2), (2, 10)], opt_dev=1, objs=2),
+    routes = (dict(nm=3, nr=4, K=(-1, 0, 1), d=1, menu=[(0, 10), (-10, 10), (-10, 0), (-10, -2), (2, 10)], opt_dev=1, objs=2,
+                   partial_pairs="pfba" if ctx.tier == "quick" else True),
               lambda n: len(n) == 4 and sum(1 for c in n if families.is_boundary(c)) == 2)
     passes = [(P, None), routes] if ctx.tier == "quick" else thorough_passes()
     payloads, nets = [], []
@@ -426,8 +427,10 @@ def explore(ctx):
            and (ctx.thorough or len(n) <= 3 or sum(1 for c in n if families.is_boundary(c)) >= 1)]
     payloads += [{"params": PS, "nets": cyc[i:i + 2], "spelling_history": True} for i in range(0, len(cyc), 2)]
     # origins: the alternative-route networks, reached by every other public route (mc/origins.py)
-    PO = dict(routes[0], d=1 if ctx.thorough else 0, opt_dev=1, objs=2)
+    PO = dict(routes[0], d=1 if ctx.thorough else 0, opt_dev=1, objs=2, partial_pairs=ctx.thorough)
     orig_nets = [n for n in families.networks(PO["nm"], PO["nr"], PO["K"]) if routes[1](n)]
+    if ctx.tier == "quick":
+        orig_nets = orig_nets[ctx.seed % 2::2]   # every second network (which half rotates with the seed)
     payloads += [{"params": PO, "nets": orig_nets[i:i + 2], "origins": True} for i in range(0, len(orig_nets), 2)]
     stats = {}
     with ctx.pool(timeout=3000) as pool:
